@@ -5,6 +5,26 @@ V = os.path.dirname(os.path.dirname(os.path.abspath(__file__)))
 sys.path.insert(0, V)
 props = [json.loads(l) for l in open(os.path.join(V, "properties.jsonl"))]
 na = json.load(open(os.path.join(V, "obl", "not_applicable.json")))
+TEXT = {
+ "C01": ("Bounded symbolic verification of src/sm2_sign.c: sign/verify algebra as an iff over a small-field instantiation, exact 256-bit range logic, strict DER on all inputs <= 12/20 bytes, ID binding, inductive nonce-store step.", "M4 small-field group model, ideal SM3; EC arithmetic below the stubs is C13's subject"),
+ "C02": ("Bounded symbolic verification of sm2_do_decrypt (accept => GB/T 32918.4 conditions) and the SM2Cipher DER codec; encryption obligations are thorough-tier only; ECDH not covered.", "M4 group model, ideal SM3 under the real sm2_kdf"),
+ "C03": ("Padding/length logic of all six hashes from an arbitrary context state (exact), chunking for short messages, HMAC/KDF/PBKDF2/HKDF structure over an ideal hash/PRF. Compression functions are NOT compared with their standards.", "compression function = block recorder; SM3 = collision-free recorder"),
+ "C04": ("CBC/CTR/CTR32/CFB/OFB of sm4_*.c against SP 800-38A references over an ideal block cipher (uninterpreted permutation), streaming and in-place variants, dry-run sizes. Primitives themselves not verified.", "sm4_encrypt as UF with inverse axioms; ENABLE_SMALL_FOOTPRINT block loops"),
+ "C05": ("GCM (one-shot, streaming), CCM, CTR+HMAC: acceptance <=> full-length tag equality over exactly the authenticated data (ideal MAC probes), GHASH chain with uninterpreted multiplication. One known finding (IV not MACed in composite modes).", "ideal MAC / PRF assumption; bit-flip rejection holds modulo that assumption"),
+ "C06": ("CBMC memory checks on exact-size objects for the listed decoders, record reception with arbitrary short reads, capacity obligations with scaled constants. Large parts of the input surface (X.509/CMS deep parsing, handshake byte streams) are outside.", "bounded input sizes (10-20 bytes for byte parsers), scaled TLS constants"),
+ "C07": ("Real chain-walk and profile-check code over abstract certificates: accept <=> reference predicate for chains of 1..4(5) certificates, all attribute combinations.", "certificate parsing and signature primitive abstracted to arbitrary per-certificate facts"),
+ "C08": ("Per-endpoint building blocks only: PRF / TLS1.3 label structure, record round trips, full-size fragment acceptance, in-order reassembly. Nothing about two live endpoints.", "ideal PRF; handshake drivers not encodable"),
+ "C11": ("Record protection of TLCP/TLS1.2/TLS1.3: round trip, MAC/AEAD input coverage, padding, sequence-number binding, malformed lengths, over ideal CBC/MAC/AEAD layers; seq increment exact.", "ideal CBC table, ideal MAC probe, ideal AEAD; payloads <= 17/11 bytes quick"),
+ "C12": ("Decision logic of point/scalar importers at full width with the curve equation as a recording oracle; key-share and private-key container paths.", "curve equation and decompression not verified"),
+ "C13": ("Limb layer exact at full width; Jacobian point formulas over a small prime field against the affine group law; scalar-multiplication routes thorough-only. Multiplier / Montgomery reduction not decided.", "small-field transfer argument (polynomial identities of degree <= 12 < 13)"),
+ "C14": ("Round trip / dry-run / canonicity of ASN.1 primitives (several exact), OID and SEQUENCE OF capacity, validators, time strings, hex, PEM capacity.", "bounded content sizes; base64 streaming thorough-only"),
+ "C15": ("CRL lookup = membership; x509_signed_verify acceptance conditions; extension encoder length consistency around DER length boundaries.", "ideal signature verifier; abstract entries"),
+ "C16": ("Two control-flow theorems of cms.c (signed-data verification, recipient matching).", "abstract DER parts"),
+ "C17": ("SM9 256-bit limb / Fp add-sub layer exact; MAC-then-decrypt control flow. Pairing, tower fields, G1/G2 not decided.", "-"),
+ "C18": ("Entropy-driven outputs and fail-closed behaviour for six randomised operations with a symbolic failing draw.", "rand_bytes model; heavy arithmetic opaque"),
+ "C19": ("No dumping helper reachable in four secret-handling operations on any path (diagnostic monitor). Handshake drivers (which do print secrets) not covered.", "error_print* macros reduced to no-ops (they print file/line only)"),
+ "C20": ("Reduction: inventory of writable statics (auxiliary, syntactic) + operations meeting their specification from arbitrary static state (--nondet-static). Interleavings not explored.", "no schedule exploration"),
+}
 checks = []
 not_app = []
 for p in props:
@@ -19,9 +39,9 @@ for p in props:
             "replay_cmd_template": "python3 tools/replay.py {path}",
             "engine": "cbmc",
             "level_claimed": {"category": getattr(mod, "LEVEL", "other"),
-                              "text": getattr(mod, "LEVEL_TEXT", "bounded symbolic verification (CBMC) of the real translation units; every obligation is a solver verdict over all inputs inside the stated bounds"),
+                              "text": TEXT.get(pid, ("bounded symbolic verification (CBMC)", ""))[0],
                               "design_ref": "DESIGN.md section 4 (%s)" % pid},
-            "level_note": getattr(mod, "LEVEL_NOTE", "trusted: cbmc 6.11 + SAT/SMT back ends, goto-cc; the models listed per obligation in the evidence file"),
+            "level_note": "trusted: cbmc 6.11 + SAT back ends, goto-cc; models per obligation in the evidence file. " + TEXT.get(pid, ("", ""))[1],
             "technique": getattr(mod, "TECHNIQUE", "bounded model checking of real C units with CBMC (SAT/SMT), models for environment/crypto primitives"),
         })
     else:
